@@ -65,8 +65,8 @@ def slack : Int := 50000000
 
 def near (a b : Int) : Bool := (a - b < slack) && (b - a < slack)
 
-def healthSim : Sim HealthCB :=
-  { name := "health", m := healthM activeHealth genHCfg, init := HealthCB.init 0,
+def healthSim (v : Variant := activeHealth) : Sim HealthCB :=
+  { name := "health", m := healthM v genHCfg, init := HealthCB.init 0,
     extra := fun s => (if s.lastAttempt.isSome then 1 else 0, 0),
     ambiguous := fun s => s.isOpen && (near (s.lastFailure + genHCfg.timeout) s.now ||
       (match s.lastAttempt with | some la => near (la + genHCfg.window) s.now | none => false)),
@@ -77,8 +77,8 @@ def engineSim : Sim EngineCB :=
     ambiguous := fun s => s.state == .opened && near (s.lastFailure + genECfg.timeout) s.now,
     P := engineParams genECfg }
 
-def unifierSim : Sim UnifierCB :=
-  { name := "unifier", m := unifierM activeUnifier genUCfg, init := UnifierCB.init 0,
+def unifierSim (v : Variant := activeUnifier) : Sim UnifierCB :=
+  { name := "unifier", m := unifierM v genUCfg, init := UnifierCB.init 0,
     extra := fun s => (s.successes, s.halfOpen),
     ambiguous := fun s => s.state == .opened && near (s.lastFailure + genUCfg.openDuration) s.now,
     P := unifierParams genUCfg }
@@ -192,24 +192,24 @@ def handleTree (sim : Sim σ) (case : Nat) (pre : List Op) (alpha : List Op) (de
       emit case (nd == 0) false branch s!"{sim.name}-{k.name}"
         s!"{sim.name} breaker: {n} of {sufs.length} continuations of [{opsStr pre}] violate clause {k.name}; first: [{opsStr (w.getD [])}]"
 
-def handleRace (case : Nat) (b : String) (j : Json) : IO Unit := do
+def handleRace (vh vu : Variant) (case : Nat) (b : String) (j : Json) : IO Unit := do
   let m := jnat (jget j "goroutines")
   let impl := jget j "impl"
   let lo := jnat (jget impl "min_admitted")
   let hi := jnat (jget impl "max_admitted")
   let (P, mlo, mhi) : Params × Nat × Nat :=
     match b with
-    | "health"  => (healthSim.P, 1, 1)
+    | "health"  => ((healthSim vh).P, 1, 1)
     | "engine"  => (engineSim.P, 1, m)
-    | _ => (unifierSim.P, (match activeUnifier with | .pinned => 1 | .fixed => min m genUCfg.halfOpenRequests),
-                          (match activeUnifier with | .pinned => m | .fixed => min m genUCfg.halfOpenRequests))
+    | _ => ((unifierSim vu).P, (match vu with | .pinned => 1 | .fixed => min m genUCfg.halfOpenRequests),
+                               (match vu with | .pinned => m | .fixed => min m genUCfg.halfOpenRequests))
   let agree := decide (mlo ≤ lo) && decide (hi ≤ mhi)
   let spec := raceOk P lo && raceOk P hi
   emit case agree spec s!"{b}.race" (if spec then "" else s!"{b}-half-open-race")
     (if spec then "" else s!"{m} concurrent callers on a {b} breaker whose timeout had elapsed: between {lo} and {hi} were let through")
     (toJson [mlo, mhi])
 
-def handle (j : Json) : IO Unit := do
+def handle (vh vu : Variant) (j : Json) : IO Unit := do
   let case := jnat (jget j "case")
   let kind := jstr (jget j "kind")
   let b := jstr (jget j "b")
@@ -218,9 +218,9 @@ def handle (j : Json) : IO Unit := do
     let ops := (jintList (jget j "ops")).map opOfInt
     let impl := stepsOfInts (jintList (jget j "obs"))
     match b with
-    | "health"  => handleHist healthSim case ops impl
+    | "health"  => handleHist (healthSim vh) case ops impl
     | "engine"  => handleHist engineSim case ops impl
-    | "unifier" => handleHist unifierSim case ops impl
+    | "unifier" => handleHist (unifierSim vu) case ops impl
     | _ => emit case false true "unknown-breaker" "" s!"unknown breaker {b}"
   | "tree" =>
     let pre := (jintList (jget j "prefix")).map opOfInt
@@ -229,13 +229,25 @@ def handle (j : Json) : IO Unit := do
     let pobs := stepsOfInts (jintList (jget j "pobs"))
     let sobs := (jstr (jget j "sobs")).toList
     match b with
-    | "health"  => handleTree healthSim case pre alpha depth pobs sobs
+    | "health"  => handleTree (healthSim vh) case pre alpha depth pobs sobs
     | "engine"  => handleTree engineSim case pre alpha depth pobs sobs
-    | "unifier" => handleTree unifierSim case pre alpha depth pobs sobs
+    | "unifier" => handleTree (unifierSim vu) case pre alpha depth pobs sobs
     | _ => emit case false true "unknown-breaker" "" s!"unknown breaker {b}"
-  | "race" => handleRace case b j
+  | "race" => handleRace vh vu case b j
   | _ => emit case false true "unknown-kind" "" s!"unknown kind {kind}"
 
-def main : IO Unit := do forLines (← IO.getStdin) handle
+/-- The variant the implementation is compared with is `activeHealth` / `activeUnifier` of the model;
+    `VERIF_C08_HEALTH` / `VERIF_C08_UNIFIER` = `fixed` | `pinned` override it (used to try a fix patch
+    in a scratch worktree before the committed variant is flipped). -/
+def variantEnv (name : String) (dflt : Variant) : IO Variant := do
+  match (← IO.getEnv name) with
+  | some "fixed" => pure .fixed
+  | some "pinned" => pure .pinned
+  | _ => pure dflt
+
+def main : IO Unit := do
+  let vh ← variantEnv "VERIF_C08_HEALTH" activeHealth
+  let vu ← variantEnv "VERIF_C08_UNIFIER" activeUnifier
+  forLines (← IO.getStdin) (handle vh vu)
 
 end Olla.Driver.C08
